@@ -21,6 +21,9 @@ import (
 type c12PageJob struct {
 	Traces int  `json:"traces"`
 	Flush  bool `json:"flushBetween"`
+	// Red: instead of walking the search pages, run one pass of the RED computation (which pages through the spans of
+	// the last five minutes 1000 at a time) and compare every service's metrics
+	Red bool `json:"red,omitempty"`
 }
 
 func c12PageRun(w *kernel.Worker, j *c12PageJob, rep *kernel.Report) (*Fail, error) {
@@ -34,15 +37,35 @@ func c12PageRun(w *kernel.Worker, j *c12PageJob, rep *kernel.Report) (*Fail, err
 	now := time.Now()
 	base := uint64(now.Add(-3 * time.Second).UnixNano())
 	tid := func(k int) string { return fmt.Sprintf("c12a9ec12a9ec12a9ec12a9ec12a%04x", k) }
+	// paging part: one service, all OK, half a millisecond each; RED part: three services, every fifth span failed,
+	// seven different durations
+	svc := func(k int) string {
+		if !j.Red {
+			return "svcP"
+		}
+		return []string{"svcP", "svcQ", "svcR"}[k%3]
+	}
+	status := func(k int) tracepb.Status_StatusCode {
+		if j.Red && k%5 == 0 {
+			return tracepb.Status_STATUS_CODE_ERROR
+		}
+		return tracepb.Status_STATUS_CODE_OK
+	}
+	durMs := func(k int) uint64 {
+		if !j.Red {
+			return 0
+		}
+		return uint64(k%7+1) * 10
+	}
 	send := func(from, to int) (*Fail, error) {
 		var rsp []*tracepb.ResourceSpans
 		for k := from; k < to; k++ {
 			id, _ := hex.DecodeString(tid(k))
 			sid, _ := hex.DecodeString(fmt.Sprintf("a9e000000000%04x", k))
 			rsp = append(rsp, &tracepb.ResourceSpans{
-				Resource: &respb.Resource{Attributes: []*commonpb.KeyValue{{Key: "service.name", Value: anyValue("svcP")}}},
+				Resource: &respb.Resource{Attributes: []*commonpb.KeyValue{{Key: "service.name", Value: anyValue(svc(k))}}},
 				ScopeSpans: []*tracepb.ScopeSpans{{Spans: []*tracepb.Span{{TraceId: id, SpanId: sid, Name: fmt.Sprintf("op%d", k), Kind: tracepb.Span_SPAN_KIND_SERVER,
-					StartTimeUnixNano: base + uint64(k)*1_000_000, EndTimeUnixNano: base + uint64(k)*1_000_000 + 500_000, Status: &tracepb.Status{Code: tracepb.Status_STATUS_CODE_OK}}}}}})
+					StartTimeUnixNano: base + uint64(k)*1_000, EndTimeUnixNano: base + uint64(k)*1_000 + durMs(k)*1_000_000 + 500_000, Status: &tracepb.Status{Code: status(k)}}}}}})
 		}
 		pb, err := proto.Marshal(&coltracepb.ExportTraceServiceRequest{ResourceSpans: rsp})
 		if err != nil {
@@ -75,6 +98,49 @@ func c12PageRun(w *kernel.Worker, j *c12PageJob, rep *kernel.Report) (*Fail, err
 		return die("flush", err)
 	}
 	rep.Transition(int64(j.Traces))
+	if j.Red {
+		if err := w.CallT("redtraces", nil, nil, 120*time.Second); err != nil {
+			return die("red-metrics", err)
+		}
+		rr, err := runQuery(w, Q{Index: "red-traces", Text: "*", Start: now.Add(-10 * time.Minute).UnixMilli(), End: now.Add(10 * time.Minute).UnixMilli(), Size: 100})
+		if err != nil {
+			return die("red-metrics", err)
+		}
+		rep.Eval(1)
+		fs := &Fails{}
+		cnt, errs, durs := map[string]int{}, map[string]int{}, map[string][]float64{}
+		for k := 0; k < j.Traces; k++ {
+			cnt[svc(k)]++
+			if status(k) == tracepb.Status_STATUS_CODE_ERROR {
+				errs[svc(k)]++
+			}
+			durs[svc(k)] = append(durs[svc(k)], float64(durMs(k)))
+		}
+		got := map[string]map[string]interface{}{}
+		for _, rec := range rr.Records {
+			got[fmt.Sprint(rec["service"])] = rec
+		}
+		for s, n := range cnt {
+			rec := got[s]
+			rate, _ := ObsFloat(rec["rate"])
+			er, _ := ObsFloat(rec["error_rate"])
+			ctx := fmt.Sprintf("%d one-span traces of three services in one request, one pass of the RED computation: service %s has %d entry spans, %d failed", j.Traces, s, n, errs[s])
+			if !approxEq(rate*60, float64(n)) {
+				fs.Add("C12/red-metrics/rate-beyond-one-page", ctx+fmt.Sprintf("; RED rate*60 = %v", rate*60))
+			} else if !approxEq(er, 100*float64(errs[s])/float64(n)) {
+				fs.Add("C12/red-metrics/error-rate-beyond-one-page", ctx+fmt.Sprintf("; RED error_rate = %v", er))
+			} else {
+				for _, pc := range []int{50, 90, 95, 99} {
+					g, _ := ObsFloat(rec[fmt.Sprintf("p%d", pc)])
+					if want := c12Percentile(durs[s], pc); !approxEq(g, want) {
+						fs.Add("C12/red-metrics/latency-percentile-beyond-one-page", ctx+fmt.Sprintf("; p%d = %v, RED p%d = %v", pc, want, pc, g))
+						break
+					}
+				}
+			}
+		}
+		return fs.Result(), nil
+	}
 	startMs, endMs := now.Add(-5*time.Minute).UnixMilli(), now.Add(2*time.Minute).UnixMilli()
 	seen := map[string]int{}
 	var sizes []int
@@ -139,6 +205,9 @@ func c12Paging(rep *kernel.Report, budget *kernel.Budget) {
 				if n > 1 {
 					emit(c12PageJob{Traces: n, Flush: true})
 				}
+			}
+			for _, n := range []int{999, 1000, 1001, 1300} {
+				emit(c12PageJob{Traces: n, Red: true})
 			}
 		},
 		Run:        c12PageRun,
